@@ -21,6 +21,7 @@ import (
 	apiext "github.com/koordinator-sh/koordinator/apis/extension"
 	slov1alpha1 "github.com/koordinator-sh/koordinator/apis/slo/v1alpha1"
 	"github.com/koordinator-sh/koordinator/pkg/koordlet/resourceexecutor"
+	"github.com/koordinator-sh/koordinator/pkg/koordlet/runtimehooks/protocol"
 	"github.com/koordinator-sh/koordinator/pkg/koordlet/statesinformer"
 	koordletutil "github.com/koordinator-sh/koordinator/pkg/koordlet/util"
 	sysutil "github.com/koordinator-sh/koordinator/pkg/koordlet/util/system"
@@ -220,6 +221,30 @@ func c12rcPodQuota(lims []int64, enabled bool, ratio float64) int64 {
 		sum += l
 	}
 	return c12rcQuota(sum, enabled, ratio)
+}
+
+// the facts Props/C12.lean `ScaleOK` assumes of q -> int64(ceil(float64(q)/ratio)), re-evaluated on the quotas of a round
+func c12rcScaleOK(ratio float64, qs []int64) (bool, string) {
+	sc := func(q int64) int64 {
+		if ratio > 1.0 {
+			return int64(math.Ceil(float64(q) / ratio))
+		}
+		return q
+	}
+	for _, a := range qs {
+		if a <= 0 {
+			continue
+		}
+		if sc(a) <= 0 || sc(a) > a {
+			return false, fmt.Sprintf("scale(%d)=%d at ratio %v", a, sc(a), ratio)
+		}
+		for _, b := range qs {
+			if a <= b && sc(a) > sc(b) {
+				return false, fmt.Sprintf("scale(%d)=%d > scale(%d)=%d at ratio %v", a, sc(a), b, sc(b), ratio)
+			}
+		}
+	}
+	return true, ""
 }
 
 type c12rcPod struct {
@@ -444,7 +469,7 @@ func TestVerifC12RuleCb(t *testing.T) {
 			var metas []*statesinformer.PodMeta
 			var shown []*c12rcPod
 			for _, q := range pods {
-				if !r.Chance(1, 10) {
+				if !r.Chance(1, 10) && !(len(pods) > 1 && r.Chance(1, 6)) {
 					metas = append(metas, q.meta)
 					shown = append(shown, q)
 				}
@@ -492,6 +517,21 @@ func TestVerifC12RuleCb(t *testing.T) {
 			}
 			h.Obs("st %s", vInts(final))
 
+			// float assumption of rule_targets_valid
+			{
+				var qs []int64
+				for _, q := range pods {
+					if q.be && q.hasER {
+						qs = append(qs, c12rcPodQuota(q.lims, true, -1))
+						for _, l := range q.lims {
+							qs = append(qs, c12rcQuota(l, true, -1))
+						}
+					}
+				}
+				if ok, why := c12rcScaleOK(ratio, qs); !ok {
+					h.Fail("C12:float-assumption", "ScaleOK does not hold: %s", why)
+				}
+			}
 			// ---------------- property oracle ----------------
 			changed := 0
 			for i := range tgt {
@@ -558,4 +598,105 @@ func TestVerifC12RuleCb(t *testing.T) {
 		"(cgroup v1/v2, systemd/cgroupfs), start = all unlimited / kubelet values / values of a random ratio; 1-4 rounds of rule changes (ratio off/1.0..3.0 through " +
 		"parseRuleForNodeMeta, cfs-quota switch through parseRuleForNodeSLO), a random 90% of the pods shown, cache fresh or force-expired, then the real " +
 		"ruleUpdateCbForNodeMeta; non-trivial = full oracle and >= 1 dir changes; distinct by op lines")
+}
+
+// C12 harness `quota`: the arithmetic behind the targets (Model/C12Rule.lean podQuota / ctrQuota, linked into the
+// driver): one line = one BE pod handed to the real SetPodCFSQuota / SetContainerCFSQuota through FromReconciler under
+// a rule (cfs quota on/off, ratio k/100); observation = the quotas the setters put into the responses.
+// Oracle = rule_targets_valid's statement: every container's quota is within its pod's.
+func TestVerifC12Quota(t *testing.T) {
+	h := vOpen("C12")
+	if h == nil {
+		t.Skip("VERIF_OUT not set")
+	}
+	sysutil.SetupCgroupPathFormatter(sysutil.Systemd)
+	ratios := []int64{-100, 100, 101, 110, 120, 133, 150, 200, 300, 80, 99, 1000, 117}
+	n := h.N(1500, 40000)
+	for idx := 0; idx < n; idx++ {
+		r := h.Begin(idx)
+		if r == nil {
+			continue
+		}
+		lines := r.Range(1, 4)
+		for ln := 0; ln < lines; ln++ {
+			ratio100 := ratios[r.Intn(len(ratios))]
+			if r.Chance(1, 4) {
+				ratio100 = int64(r.Range(90, 400))
+			}
+			enabled := !r.Chance(1, 8)
+			p := newPlugin()
+			p.rule.UpdateCFSQuotaEnabled(enabled)
+			if ratio100 > 0 || r.Bool() {
+				p.rule.UpdateCPUNormalizationRatio(float64(ratio100) / 100.0)
+			}
+			pod := &corev1.Pod{
+				ObjectMeta: metav1.ObjectMeta{Name: "p", Namespace: "ns", UID: "u", Labels: map[string]string{apiext.LabelPodQoS: string(apiext.QoSBE)}},
+				Status:     corev1.PodStatus{Phase: corev1.PodRunning},
+			}
+			nc := r.Range(1, 4)
+			var lims []int64
+			for ci := 0; ci < nc; ci++ {
+				lim := r.Pick(c12rcLimPool)
+				switch r.Intn(4) {
+				case 0:
+					lim = int64(r.Range(1, 64000))
+				case 1:
+					lim = int64(r.Range(1, 40)) * 100
+				}
+				cname := fmt.Sprintf("c%d", ci)
+				c := corev1.Container{Name: cname}
+				c.Resources.Requests = corev1.ResourceList{apiext.BatchCPU: *resource.NewQuantity(100, resource.DecimalSI)}
+				if lim >= 0 {
+					c.Resources.Limits = corev1.ResourceList{apiext.BatchCPU: *resource.NewQuantity(lim, resource.DecimalSI)}
+				} else if r.Bool() {
+					c.Resources.Limits = corev1.ResourceList{apiext.BatchMemory: *resource.NewQuantity(1<<30, resource.BinarySI)}
+				}
+				pod.Spec.Containers = append(pod.Spec.Containers, c)
+				pod.Status.ContainerStatuses = append(pod.Status.ContainerStatuses, corev1.ContainerStatus{Name: cname, ContainerID: "containerd://k" + cname})
+				lims = append(lims, lim)
+			}
+			meta := &statesinformer.PodMeta{Pod: pod, CgroupDir: "kubepods.slice/kubepods-besteffort.slice/kubepods-besteffort-podu.slice/"}
+			h.Op("pq %d %d %s", ratio100, vB(enabled), vInts(lims))
+			out := make([]int64, 0, nc+1)
+			get := func(q *int64) int64 {
+				if q == nil {
+					return -2
+				}
+				return *q
+			}
+			if h.Guard(func() {
+				podCtx := &protocol.PodContext{}
+				podCtx.FromReconciler(meta)
+				if err := p.SetPodCFSQuota(podCtx); err != nil {
+					out = append(out, -3)
+				} else {
+					out = append(out, get(podCtx.Response.Resources.CFSQuota))
+				}
+				for _, cs := range pod.Status.ContainerStatuses {
+					cctx := &protocol.ContainerContext{}
+					cctx.FromReconciler(meta, cs.Name, false)
+					if err := p.SetContainerCFSQuota(cctx); err != nil {
+						out = append(out, -3)
+					} else {
+						out = append(out, get(cctx.Response.Resources.CFSQuota))
+					}
+				}
+			}) {
+				h.Obs("panic")
+				continue
+			}
+			h.Obs("q %s", vInts(out))
+			h.Nontrivial()
+			h.Tag(fmt.Sprintf("quota:enabled=%d:scaled=%d:podUnlimited=%d", vB(enabled), vB(ratio100 > 100), vB(out[0] == -1)))
+			for i := 1; i < len(out); i++ {
+				if out[0] < -1 || out[i] < -1 || !c12rcLe(out[i], out[0]) {
+					h.Fail("C12:quota-target-invalid", "ratio %d/100 enabled %v limits %v: quotas %v - container %d is not within its pod", ratio100, enabled, lims, out, i-1)
+					break
+				}
+			}
+		}
+		h.End()
+	}
+	h.Close("1-4 BE pods per case, 1-4 containers with batch-cpu limits 1m..64000m / 0 / absent, rule: cfs quota on (7/8) / off, ratio unset / 0.8 .. 10.0 in hundredths; " +
+		"every case non-trivial; distinct by op lines")
 }
